@@ -4,7 +4,9 @@ package main
 
 import (
 	"go/ast"
+	"go/printer"
 	"go/token"
+	"sort"
 	"strings"
 )
 
@@ -152,6 +154,16 @@ func c05Flatten(stmts []ast.Stmt) [][]string {
 	return prog
 }
 
+// c05OneLine collapses whitespace so that a wrapped expression is one token.
+func c05OneLine(s string) string { return strings.Join(strings.Fields(s), " ") }
+
+// c05StmtString prints a statement on one line.
+func c05StmtString(st ast.Stmt) string {
+	var sb strings.Builder
+	printer.Fprint(&sb, fset, st)
+	return c05OneLine(sb.String())
+}
+
 func c05LeanProg(p [][]string) string {
 	var rows []string
 	for _, st := range p {
@@ -276,7 +288,112 @@ func genC05Facts() {
 	l.p("def signerRawTx : String := %q", rawTx)
 	l.p("def signerMuSig2Tx : String := %q", muTx)
 	l.p("def signerMuSig2PrevOuts : String := %q", muPrev)
-	acct := newConstEnv(pkgFiles("account"))
+	// --- the account modifiers the storer stages with, and their bodies ---
+	acctFiles := pkgFiles("account")
+	var modRows []string
+	for _, f := range acctFiles {
+		for _, d := range f.Decls {
+			fd, ok := d.(*ast.FuncDecl)
+			if !ok || fd.Recv != nil || fd.Type.Results == nil || len(fd.Type.Results.List) != 1 ||
+				exprString(fd.Type.Results.List[0].Type) != "Modifier" || fd.Body == nil {
+				continue
+			}
+			body := []string{"<not a single returned closure>"}
+			if len(fd.Body.List) == 1 {
+				if rs, ok := fd.Body.List[0].(*ast.ReturnStmt); ok && len(rs.Results) == 1 {
+					if fl, ok := rs.Results[0].(*ast.FuncLit); ok {
+						body = nil
+						for _, st := range fl.Body.List {
+							body = append(body, c05StmtString(st))
+						}
+					}
+				}
+			}
+			modRows = append(modRows, "(\""+fd.Name.Name+"\", "+leanStrList(body)+")")
+		}
+	}
+	sort.Strings(modRows)
+	l.p("def accountModifierBodies : List (String × List String) := [\n  %s]", strings.Join(modRows, ",\n  "))
+
+	st := findFunc(orderFiles, "batchStorer.StorePendingBatch")
+	if st == nil {
+		fail("batchStorer.StorePendingBatch not found")
+		return
+	}
+	// appended modifier constructor calls: unconditional per switch case,
+	// conditional ones with their condition, and the ones after the switch
+	var recreated, closed, common []string
+	var recreatedCond []string
+	collect := func(stmts []ast.Stmt, uncond *[]string, cond *[]string) {
+		for _, s := range stmts {
+			switch x := s.(type) {
+			case *ast.AssignStmt:
+				if len(x.Rhs) == 1 {
+					if c, ok := x.Rhs[0].(*ast.CallExpr); ok && exprString(c.Fun) == "append" && len(c.Args) > 1 &&
+						exprString(c.Args[0]) == "modifiers" {
+						for _, a := range c.Args[1:] {
+							*uncond = append(*uncond, c05OneLine(exprString(a)))
+						}
+					}
+				}
+			case *ast.IfStmt:
+				if c05IsErrCheck(x.Cond) {
+					continue
+				}
+				if cond == nil {
+					*uncond = append(*uncond, "<if "+c05OneLine(exprString(x.Cond))+">")
+					continue
+				}
+				var inner []string
+				collectInner := func(ss []ast.Stmt) {
+					for _, s2 := range ss {
+						if as, ok := s2.(*ast.AssignStmt); ok && len(as.Rhs) == 1 {
+							if c, ok := as.Rhs[0].(*ast.CallExpr); ok && exprString(c.Fun) == "append" {
+								for _, a := range c.Args[1:] {
+									inner = append(inner, c05OneLine(exprString(a)))
+								}
+							}
+						}
+					}
+				}
+				collectInner(x.Body.List)
+				*cond = append(*cond, "(\""+c05OneLine(exprString(x.Cond))+"\", "+leanStrList(inner)+")")
+			}
+		}
+	}
+	ast.Inspect(st, func(n ast.Node) bool {
+		rs, ok := n.(*ast.RangeStmt)
+		if !ok || exprString(rs.X) != "batch.AccountDiffs" {
+			return true
+		}
+		for _, s := range rs.Body.List {
+			if sw, ok := s.(*ast.SwitchStmt); ok && exprString(sw.Tag) == "diff.EndingState" {
+				for _, c := range sw.Body.List {
+					cc := c.(*ast.CaseClause)
+					names := c05Join(cc.List, exprString)
+					switch {
+					case strings.Contains(names, "OUTPUT_RECREATED"):
+						collect(cc.Body, &recreated, &recreatedCond)
+					case strings.Contains(names, "OUTPUT_FULLY_SPENT"):
+						collect(cc.Body, &closed, nil)
+					}
+				}
+			} else {
+				collect([]ast.Stmt{s}, &common, nil)
+			}
+		}
+		return false
+	})
+	if len(recreated) == 0 || len(closed) == 0 || len(common) == 0 {
+		fail("batchStorer.StorePendingBatch: modifier lists not found")
+		return
+	}
+	l.p("def storerRecreatedModifiers : List String := %s", leanStrList(recreated))
+	l.p("def storerRecreatedConditional : List (String × List String) := [%s]", strings.Join(recreatedCond, ", "))
+	l.p("def storerClosedModifiers : List String := %s", leanStrList(closed))
+	l.p("def storerCommonModifiers : List String := %s", leanStrList(common))
+
+	acct := newConstEnv(acctFiles)
 	l.p("def versionTaprootEnabled : Nat := %s", intConst(acct, "account", "VersionTaprootEnabled"))
 	l.p("end Pool.Gen.C05")
 }
